@@ -471,6 +471,74 @@ pub fn run(rep: &mut Report, thorough: bool) {
         &mut rep.sink,
     );
     rep.stage("tcp-ports", "TCP payloads x {v4,v6} x port sweeps (fresh validated flow each)", product(&dims), t0);
+    // connections on NEIGHBOURING port pairs in ONE responder process (every single-bit flip of the
+    // source port, of the destination port, of both; byte-swapped and shifted pairs), each carrying
+    // the next payload round robin: the answer on a port pair is the payload's, whatever the
+    // neighbouring pairs carried before
+    {
+        let t0 = std::time::Instant::now();
+        let mut pairs: Vec<(u16, u16)> = Vec::new();
+        for (sp, dp) in [(40000u16, 443u16), (0x1234, 80), (1025, 0xffff)] {
+            pairs.push((sp, dp));
+            for b in 0..16 {
+                pairs.push((sp ^ (1 << b), dp));
+                pairs.push((sp, dp ^ (1 << b)));
+                pairs.push((sp ^ (1 << b), dp ^ (1 << b)));
+            }
+            pairs.push((dp, sp));
+            pairs.push((sp.swap_bytes(), dp.swap_bytes()));
+            pairs.push((sp.wrapping_add(1), dp.wrapping_sub(1)));
+            pairs.push((sp >> 8, (sp << 8) | (dp & 0xff)));
+            pairs.push((sp & 0xfff0, 0x0400 | dp));
+        }
+        pairs.sort();
+        pairs.dedup();
+        let mut fl: Vec<Flow> = Vec::new();
+        for v6 in [false, true] {
+            for (sp, dp) in &pairs {
+                fl.push(flow(v6, *sp, *dp));
+            }
+        }
+        let ck = learn_cookies(&cfg, &fl).unwrap_or_default();
+        let fl: Vec<Flow> = fl.into_iter().filter(|f| ck.contains_key(&key_of(f))).collect();
+        let answered: Vec<&Payload> = tcp_sel.iter().filter(|p| ["http-get", "ssh-2", "ghost", "smb2-negotiate", "rpc-tcp-getaddr"].contains(&p.name)).cloned().collect();
+        let np = answered.len().max(1);
+        let cmds: Vec<Cmd> = fl.iter().enumerate().map(|(k, f)| Cmd::Frame(f.tcp(1000, ck[&key_of(f)].wrapping_add(1), F_PSH | F_ACK, &answered[k % np].bytes))).collect();
+        let n = cmds.len();
+        let opts = RunOpts::new("tcp-port-neighbours").stateful().chunk(1).no_monitor();
+        let cfgn = cfg.clone();
+        if !answered.is_empty() {
+            engine::run(
+                &cfg,
+                1,
+                &opts,
+                |_| cmds.clone(),
+                |it: &Item, sk: &mut Sink| {
+                    sk.count("frames", n as u64);
+                    for k in 0..n {
+                        let p = answered[k % np];
+                        let o = &it.outs[1 + k];
+                        let got = canon_checked(p.name, &p.bytes, o.reply.as_deref(), &ctx_of(&fl[k], true));
+                        let want = &refs[&(p.name.to_string(), true)];
+                        if !same(&got, want) {
+                            sk.violation(Violation {
+                                prop: "C19".into(),
+                                key: format!("port-neighbour-dependence:tcp:{}", p.name),
+                                what: format!("payload '{}' from port {} to port {} over {} (connection {} of one process, neighbours carried other payloads): canonical reply {} differs from the reference run {}", p.name, fl[k].cport, fl[k].sport, fl[k].cip, k + 1, got, want),
+                                cfg: cfgn.clone(),
+                                cmds: it.cmds[..=1 + k].to_vec(),
+                                idx: k as u64,
+                                stage: "tcp-port-neighbours".into(),
+                            });
+                            break;
+                        }
+                    }
+                },
+                &mut rep.sink,
+            );
+        }
+        rep.stage("tcp-port-neighbours", "connections on every single-bit neighbour (source port, destination port, both), byte-swapped and shifted variants of 3 port pairs x {v4,v6} in one responder process, payloads round robin over 5 protocols: each answer equals the reference", n as u64, t0);
+    }
     // port pairs whose SYN cookie is an edge value (0xffffffff: the valid acknowledgement is 0; 0;
     // 0xfffffffe; 1): keys under which the flow 40000 -> 80 has such a cookie were found offline
     // with the harness's own SipHash and are CONFIRMED against the real SYN-ACK here; the answers
